@@ -322,6 +322,15 @@ Ltac float_unfold :=
 
 Ltac Zify.zify_post_hook ::= Z.div_mod_to_equations.
 
+(* case analysis on every boolean / three-way integer test in the goal *)
+Ltac zb_cases :=
+  repeat match goal with
+  | |- context [Z.leb ?a ?b] => destruct (Z.leb_spec a b)
+  | |- context [Z.ltb ?a ?b] => destruct (Z.ltb_spec a b)
+  | |- context [Z.eqb ?a ?b] => destruct (Z.eqb_spec a b)
+  | |- context [Z.compare ?a ?b] => destruct (Z.compare_spec a b)
+  end; cbn [orb andb negb].
+
 Lemma i2f_bits_key a :
   in_i64 a = true ->
   f_is_nan (i2f_bits a) = false /\ num_key (i2f_bits a) = int_key a /\
@@ -330,12 +339,8 @@ Proof.
   intros H. pose proof (int_key_bound a H) as B. unfold i2f_bits.
   set (k := int_key a) in *. float_unfold. unfold two63, two64, inf_bits in *.
   destruct (Z.ltb_spec k 0).
-  - rewrite (Z.mod_small (9223372036854775808 - k)) by lia.
-    destruct (Z.leb_spec 9223372036854775808 (9223372036854775808 - k)); try lia.
-    destruct (Z.ltb_spec 9218868437227405312 (9223372036854775808 - k - 9223372036854775808)); lia.
-  - rewrite (Z.mod_small k) by lia.
-    destruct (Z.leb_spec 9223372036854775808 k); try lia.
-    destruct (Z.ltb_spec 9218868437227405312 k); lia.
+  - rewrite (Z.mod_small (9223372036854775808 - k)) by lia. zb_cases; lia.
+  - rewrite (Z.mod_small k) by lia. zb_cases; lia.
 Qed.
 
 (* the Integer x Float arm of the code, literally: the integer is converted, then partial_cmp *)
@@ -363,4 +368,658 @@ Proof.
   intros H. destruct (i2f_bits_key b H) as (Hn & Hk & _).
   unfold cmp_float_int, f_partial_cmp. rewrite Hn, Hk, orb_false_r.
   destruct (f_is_nan a); reflexivity.
+Qed.
+
+(* ------------------------------------------------------------------ *)
+(* nested induction principle for pv *)
+Section PvInd.
+  Variable P : pv -> Prop.
+  Hypothesis HStr : forall s, P (PStr s).
+  Hypothesis HInt : forall z, P (PInt z).
+  Hypothesis HFloat : forall b, P (PFloat b).
+  Hypothesis HBool : forall b, P (PBool b).
+  Hypothesis HDate : forall z, P (PDate z).
+  Hypothesis HArr : forall l, Forall P l -> P (PArr l).
+  Hypothesis HMap : forall m, Forall (fun kv => P (snd kv)) m -> P (PMap m).
+  Hypothesis HVec : forall v, P (PVec v).
+  Hypothesis HDur : forall m d s n, P (PDur m d s n).
+  Hypothesis HNull : P PNull.
+
+  Fixpoint pv_nested_ind (v : pv) : P v :=
+    match v with
+    | PStr s => HStr s
+    | PInt z => HInt z
+    | PFloat b => HFloat b
+    | PBool b => HBool b
+    | PDate z => HDate z
+    | PArr l =>
+        HArr l ((fix go (l : list pv) : Forall P l :=
+                   match l with
+                   | [] => Forall_nil P
+                   | x :: r => Forall_cons x (pv_nested_ind x) (go r)
+                   end) l)
+    | PMap m =>
+        HMap m ((fix go (m : list (bytes * pv)) : Forall (fun kv => P (snd kv)) m :=
+                   match m with
+                   | [] => Forall_nil _
+                   | (k, x) :: r => Forall_cons (k, x) (pv_nested_ind x) (go r)
+                   end) m)
+    | PVec v => HVec v
+    | PDur m d s n => HDur m d s n
+    | PNull => HNull
+    end.
+End PvInd.
+
+(* ------------------------------------------------------------------ *)
+(* the numeric bucket is the pull-back of a lexicographic integer key:
+   [class; numeric key; variant; tie-break], class -1 / +1 for NaN by sign *)
+Definition nkey (v : pv) : list Z :=
+  match v with
+  | PInt a => [0; int_key a; 0; a]
+  | PFloat b => if f_is_nan b then [if f_sign b then -1 else 1; 0; 1; tc_key b]
+                else [0; num_key b; 1; tc_key b]
+  | _ => []
+  end.
+
+Lemma num_int_int a b : (a ?= b) = lex Z.compare (nkey (PInt a)) (nkey (PInt b)).
+Proof.
+  cbn. pose proof (int_key_mono a b). pose proof (int_key_mono b a).
+  zb_cases; try reflexivity; lia.
+Qed.
+
+Lemma num_float_float x y :
+  f_total_cmp x y = lex Z.compare (nkey (PFloat x)) (nkey (PFloat y)).
+Proof.
+  unfold nkey. float_unfold. unfold two63, two64, inf_bits.
+  pose proof (Z.mod_pos_bound x 18446744073709551616 eq_refl).
+  pose proof (Z.mod_pos_bound y 18446744073709551616 eq_refl).
+  set (rx := x mod 18446744073709551616) in *. set (ry := y mod 18446744073709551616) in *.
+  destruct (Z.leb_spec 9223372036854775808 rx); destruct (Z.leb_spec 9223372036854775808 ry);
+  match goal with |- context [Z.ltb ?a ?b] => destruct (Z.ltb_spec a b) end;
+  match goal with |- context [Z.ltb ?a ?b] => destruct (Z.ltb_spec a b) end;
+  cbn [lex]; zb_cases; try reflexivity; lia.
+Qed.
+
+Lemma num_int_float a y :
+  cmp_int_float a y = lex Z.compare (nkey (PInt a)) (nkey (PFloat y)).
+Proof.
+  unfold nkey, cmp_int_float, then_.
+  destruct (f_is_nan y); [destruct (f_sign y); reflexivity|].
+  cbn [lex]. change (0 ?= 0) with Eq. cbv iota.
+  destruct (int_key a ?= num_key y); reflexivity.
+Qed.
+
+Lemma num_float_int x b :
+  cmp_float_int x b = lex Z.compare (nkey (PFloat x)) (nkey (PInt b)).
+Proof.
+  unfold nkey, cmp_float_int, then_.
+  destruct (f_is_nan x); [destruct (f_sign x); reflexivity|].
+  cbn [lex]. change (0 ?= 0) with Eq. cbv iota.
+  destruct (num_key x ?= int_key b); reflexivity.
+Qed.
+
+(* ------------------------------------------------------------------ *)
+(* unfolding equations of pv_cmp *)
+Definition val_cmp (p q : bytes * pv) : comparison := pv_cmp (snd p) (snd q).
+
+Lemma lex_ext {A} (c c' : A -> A -> comparison) l1 l2 :
+  (forall a b, c a b = c' a b) -> lex c l1 l2 = lex c' l1 l2.
+Proof.
+  intros E. revert l2. induction l1 as [|x l1 IH]; intros [|y l2]; cbn; auto.
+  rewrite E. destruct (c' x y); auto.
+Qed.
+
+Lemma pv_cmp_map x y :
+  pv_cmp (PMap x) (PMap y) =
+  match lex bytes_cmp (map fst x) (map fst y) with
+  | Eq => lex val_cmp x y
+  | o => o
+  end.
+Proof.
+  cbn [pv_cmp]. destruct (lex bytes_cmp (map fst x) (map fst y)); auto.
+  apply lex_ext. intros [k u] [k' w]. reflexivity.
+Qed.
+
+Lemma dur_as_lex m1 d1 s1 n1 m2 d2 s2 n2 :
+  then_ (m1 ?= m2) (then_ (d1 ?= d2) (then_ (s1 ?= s2) (n1 ?= n2))) =
+  lex Z.compare [m1; d1; s1; n1] [m2; d2; s2; n2].
+Proof.
+  cbn. unfold then_.
+  destruct (m1 ?= m2), (d1 ?= d2), (s1 ?= s2), (n1 ?= n2); reflexivity.
+Qed.
+
+Definition bucket_cmp (a b : pv) : comparison := bucket a ?= bucket b.
+
+Lemma bucket_cmp_lawful x : lawful_at bucket_cmp x.
+Proof. apply (pull_lawful bucket Z.compare). apply Zcmp_lawful. Qed.
+
+Lemma pv_cmp_bucket a b :
+  pv_cmp a b = match bucket_cmp a b with Eq => pv_cmp a b | o => o end.
+Proof.
+  unfold bucket_cmp. destruct a, b; try reflexivity.
+Qed.
+
+Lemma bucket_cmp_eq a b : bucket_cmp a b = Eq -> bucket a = bucket b.
+Proof. apply Z.compare_eq. Qed.
+
+(* a bucket on which pv_cmp is the pull-back of a lawful order *)
+Lemma bucket_pull {K} (k : Z) (ck : K -> K -> comparison) (f : pv -> K) :
+  (forall y z, bucket y = k -> bucket z = k -> pv_cmp y z = ck (f y) (f z)) ->
+  (forall u, lawful_at ck u) ->
+  forall x, bucket x = k -> lawful_at pv_cmp x.
+Proof.
+  intros Hp Hl x Hx.
+  apply (lex2_cond bucket_cmp pv_cmp pv_cmp x pv_cmp_bucket (bucket_cmp_lawful x)).
+  - intros y E. apply bucket_cmp_eq in E.
+    rewrite !Hp by congruence. apply (Hl (f x)).
+  - intros y z E1 E2. apply bucket_cmp_eq in E1, E2.
+    rewrite !Hp by congruence. apply (Hl (f x)).
+  - intros y z E1 E2. apply bucket_cmp_eq in E1, E2.
+    rewrite !Hp by congruence. apply (Hl (f x)).
+  - intros y z E1 E2. apply bucket_cmp_eq in E1, E2.
+    rewrite !Hp by congruence. apply (Hl (f x)).
+Qed.
+
+Ltac same_bucket y H :=
+  destruct y; cbn in H; try discriminate H.
+
+Lemma num_pull y z :
+  bucket y = 1 -> bucket z = 1 -> pv_cmp y z = lex Z.compare (nkey y) (nkey z).
+Proof.
+  intros Hy Hz. same_bucket y Hy; same_bucket z Hz; cbn [pv_cmp].
+  - apply num_int_int.
+  - apply num_int_float.
+  - apply num_float_int.
+  - apply num_float_float.
+Qed.
+
+Definition as_bool (v : pv) := match v with PBool b => b | _ => false end.
+Definition as_bytes (v : pv) := match v with PStr s => s | _ => [] end.
+Definition as_z (v : pv) := match v with PDate z => z | _ => 0 end.
+Definition as_zs (v : pv) :=
+  match v with PVec l => l | PDur m d s n => [m; d; s; n] | _ => [] end.
+
+Lemma val_cmp_lawful p : lawful_at pv_cmp (snd p) -> lawful_at val_cmp p.
+Proof. intros H. apply (pull_lawful snd pv_cmp). exact H. Qed.
+
+Theorem pv_cmp_lawful : forall a, lawful_at pv_cmp a.
+Proof.
+  induction a as [s|i|b|b|d|l H|m H|v|mo da se na|] using pv_nested_ind.
+  - (* strings *)
+    apply (bucket_pull 2 bytes_cmp as_bytes); auto using bytes_cmp_lawful.
+    intros u w Hu Hw. same_bucket u Hu; same_bucket w Hw. reflexivity.
+  - apply (bucket_pull 1 (lex Z.compare) nkey); auto using lexZ_lawful, num_pull.
+  - apply (bucket_pull 1 (lex Z.compare) nkey); auto using lexZ_lawful, num_pull.
+  - apply (bucket_pull 0 bool_cmp as_bool); auto using bool_cmp_lawful.
+    intros u w Hu Hw. same_bucket u Hu; same_bucket w Hw. reflexivity.
+  - apply (bucket_pull 3 Z.compare as_z); auto using Zcmp_lawful.
+    intros u w Hu Hw. same_bucket u Hu; same_bucket w Hw. reflexivity.
+  - (* arrays *)
+    pose proof (lex_lawful pv_cmp l H) as (S & L & T & R).
+    apply (lex2_cond bucket_cmp pv_cmp pv_cmp _ pv_cmp_bucket (bucket_cmp_lawful _)).
+    + intros u E. apply bucket_cmp_eq in E. same_bucket u E. exact (S _).
+    + intros u w E1 E2. apply bucket_cmp_eq in E1, E2.
+      same_bucket u E1. same_bucket w E2. exact (L _ _).
+    + intros u w E1 E2. apply bucket_cmp_eq in E1, E2.
+      same_bucket u E1. same_bucket w E2. exact (T _ _).
+    + intros u w E1 E2. apply bucket_cmp_eq in E1, E2.
+      same_bucket u E1. same_bucket w E2. exact (R _ _).
+  - (* maps: keys first, then values *)
+    assert (HM : lawful_at (fun x y => pv_cmp (PMap x) (PMap y)) m).
+    { apply (lex2_lawful (fun x y => lex bytes_cmp (map fst x) (map fst y)) (lex val_cmp)).
+      - intros x y. apply pv_cmp_map.
+      - apply (pull_lawful (map fst) (lex bytes_cmp)). apply lex_bytes_lawful.
+      - apply lex_lawful. eapply Forall_impl; [|exact H]. intros p. apply val_cmp_lawful. }
+    destruct HM as (S & L & T & R).
+    apply (lex2_cond bucket_cmp pv_cmp pv_cmp _ pv_cmp_bucket (bucket_cmp_lawful _)).
+    + intros u E. apply bucket_cmp_eq in E. same_bucket u E. exact (S _).
+    + intros u w E1 E2. apply bucket_cmp_eq in E1, E2.
+      same_bucket u E1. same_bucket w E2. exact (L _ _).
+    + intros u w E1 E2. apply bucket_cmp_eq in E1, E2.
+      same_bucket u E1. same_bucket w E2. exact (T _ _).
+    + intros u w E1 E2. apply bucket_cmp_eq in E1, E2.
+      same_bucket u E1. same_bucket w E2. exact (R _ _).
+  - apply (bucket_pull 6 (lex Z.compare) as_zs); auto using lexZ_lawful.
+    intros u w Hu Hw. same_bucket u Hu; same_bucket w Hw. reflexivity.
+  - apply (bucket_pull 7 (lex Z.compare) as_zs); auto using lexZ_lawful.
+    intros u w Hu Hw. same_bucket u Hu; same_bucket w Hw. apply dur_as_lex.
+  - apply (bucket_pull 8 Z.compare (fun _ => 0)); auto using Zcmp_lawful.
+    intros u w Hu Hw. same_bucket u Hu; same_bucket w Hw. reflexivity.
+Qed.
+
+(* ------------------------------------------------------------------ *)
+(* the property-level statements about pv_cmp *)
+Theorem pv_cmp_refl a : pv_cmp a a = Eq.
+Proof. apply lawful_refl, pv_cmp_lawful. Qed.
+
+Theorem pv_cmp_antisym a b : pv_cmp a b = CompOpp (pv_cmp b a).
+Proof. apply (pv_cmp_lawful a). Qed.
+
+Theorem pv_cmp_trans_lt a b c : pv_cmp a b = Lt -> pv_cmp b c = Lt -> pv_cmp a c = Lt.
+Proof. apply (pv_cmp_lawful a). Qed.
+
+Theorem pv_cmp_eq_congr a b c : pv_cmp a b = Eq -> pv_cmp a c = pv_cmp b c.
+Proof. apply (pv_cmp_lawful a). Qed.
+
+Theorem pv_cmp_trans_le a b c : pv_cmp a b <> Gt -> pv_cmp b c <> Gt -> pv_cmp a c <> Gt.
+Proof. apply lawful_le_trans, pv_cmp_lawful. Qed.
+
+Theorem pv_cmp_eq_iff_eqb a b : pv_cmp a b = Eq <-> pv_eqb a b = true.
+Proof. unfold pv_eqb. destruct (pv_cmp a b); split; congruence. Qed.
+
+(* Eq only between identical (well-formed) values *)
+Lemma tc_key_inj x y :
+  0 <= x < two64 -> 0 <= y < two64 -> f_total_cmp x y = Eq -> x = y.
+Proof.
+  intros Hx Hy H. apply Z.compare_eq in H. revert H.
+  float_unfold. rewrite (Z.mod_small x), (Z.mod_small y) by assumption.
+  unfold two63, two64 in *. zb_cases; lia.
+Qed.
+
+Lemma then_eq o1 o2 : then_ o1 o2 = Eq -> o1 = Eq /\ o2 = Eq.
+Proof. destruct o1; cbn; auto; discriminate. Qed.
+
+Lemma forallb_Forall {A} (f : A -> bool) l : forallb f l = true -> Forall (fun x => f x = true) l.
+Proof. rewrite forallb_forall. apply Forall_forall. Qed.
+
+Definition eq_at (a : pv) : Prop :=
+  wf a = true -> forall b, wf b = true -> pv_cmp a b = Eq -> a = b.
+
+Lemma lex_pv_eq l1 : Forall eq_at l1 -> forallb wf l1 = true ->
+  forall l2, forallb wf l2 = true -> lex pv_cmp l1 l2 = Eq -> l1 = l2.
+Proof.
+  induction 1 as [|x l1 Hx _ IH]; intros W1 [|y l2] W2; cbn; try discriminate; auto.
+  cbn in W1, W2. apply andb_true_iff in W1, W2. destruct W1 as [Wx W1], W2 as [Wy W2].
+  destruct (pv_cmp x y) eqn:E; try discriminate. intros Hr.
+  rewrite (Hx Wx y Wy E). f_equal. apply IH; auto.
+Qed.
+
+Lemma lex_val_eq m1 : Forall (fun kv => eq_at (snd kv)) m1 ->
+  forallb (fun p => let '(_, x) := p in wf x) m1 = true ->
+  forall m2, forallb (fun p => let '(_, x) := p in wf x) m2 = true ->
+  map fst m1 = map fst m2 -> lex val_cmp m1 m2 = Eq -> m1 = m2.
+Proof.
+  induction 1 as [|[k x] m1 Hx _ IH]; intros W1 [|[k' y] m2] W2; cbn; try discriminate; auto.
+  cbn in W1, W2. apply andb_true_iff in W1, W2. destruct W1 as [Wx W1], W2 as [Wy W2].
+  intros Hk. injection Hk as Hk1 Hk2. unfold val_cmp at 1. cbn [snd].
+  destruct (pv_cmp x y) eqn:E; try discriminate. intros Hr.
+  cbn [snd] in Hx. rewrite (Hx Wx y Wy E), Hk1. f_equal. apply IH; auto.
+Qed.
+
+Theorem pv_cmp_eq_leibniz : forall a, eq_at a.
+Proof.
+  induction a as [s|i|b|b|d|l H|m H|v|mo da se na|] using pv_nested_ind;
+    intros Wa [s'|i'|b'|b'|d'|l'|m'|v'|mo' da' se' na'|] Wb; cbn [pv_cmp bucket];
+    try discriminate; try reflexivity.
+  - intros E. apply bytes_cmp_eq in E. congruence.
+  - intros E. apply Z.compare_eq in E. congruence.
+  - unfold cmp_int_float, then_. destruct (f_is_nan b'); [destruct (f_sign b')|];
+      try discriminate. destruct (_ ?= _); discriminate.
+  - unfold cmp_float_int, then_. destruct (f_is_nan b); [destruct (f_sign b)|];
+      try discriminate. destruct (_ ?= _); discriminate.
+  - cbn in Wa, Wb. apply andb_true_iff in Wa, Wb.
+    rewrite Z.leb_le, Z.ltb_lt in Wa, Wb.
+    intros E. apply tc_key_inj in E; try lia. congruence.
+  - destruct b, b'; cbn; try discriminate; reflexivity.
+  - intros E. apply Z.compare_eq in E. congruence.
+  - intros E. cbn in Wa, Wb. f_equal. apply (lex_pv_eq l H Wa l' Wb E).
+  - change (pv_cmp (PMap m) (PMap m') = Eq -> PMap m = PMap m'). rewrite pv_cmp_map.
+    destruct (lex bytes_cmp (map fst m) (map fst m')) eqn:Ek; try discriminate.
+    apply lex_bytes_eq in Ek. intros E. f_equal.
+    cbn in Wa, Wb. apply andb_true_iff in Wa, Wb. destruct Wa as [_ Wa], Wb as [_ Wb].
+    apply (lex_val_eq m H Wa m' Wb Ek E).
+  - intros E. apply lexZ_eq in E. congruence.
+  - rewrite dur_as_lex. intros E. apply lexZ_eq in E. congruence.
+Qed.
+
+Theorem pv_cmp_eq_iff_eq a b :
+  wf a = true -> wf b = true -> (pv_cmp a b = Eq <-> a = b).
+Proof.
+  intros Wa Wb. split.
+  - apply pv_cmp_eq_leibniz; auto.
+  - intros ->. apply pv_cmp_refl.
+Qed.
+
+Theorem hash_compat a b :
+  wf a = true -> wf b = true -> pv_eqb a b = true -> hash_feed a = hash_feed b.
+Proof.
+  intros Wa Wb E. apply pv_cmp_eq_iff_eqb in E. apply pv_cmp_eq_leibniz in E; auto. congruence.
+Qed.
+
+(* ------------------------------------------------------------------ *)
+(* cypher_order: first by (rank, bucket); within a bucket it is pv_cmp after replacing every
+   NaN by one canonical positive NaN, except for arrays, which recurse *)
+Definition cnan : Z := 9221120237041090560.      (* 0x7FF8_0000_0000_0000 *)
+
+Definition cn (v : pv) : pv :=
+  match v with
+  | PFloat b => if f_is_nan b then PFloat cnan else v
+  | _ => v
+  end.
+
+Definition rb_cmp (a b : pv) : comparison :=
+  lex Z.compare [rank a; bucket a] [rank b; bucket b].
+
+Lemma rb_cmp_lawful x : lawful_at rb_cmp x.
+Proof. apply (pull_lawful (fun v => [rank v; bucket v]) (lex Z.compare)). apply lexZ_lawful. Qed.
+
+Lemma rb_cmp_eq a b : rb_cmp a b = Eq -> bucket a = bucket b.
+Proof. intros H. apply lexZ_eq in H. congruence. Qed.
+
+Lemma cy_rb a b : cy_order a b = match rb_cmp a b with Eq => cy_order a b | o => o end.
+Proof. destruct a, b; reflexivity. Qed.
+
+Lemma nan_cnan : f_is_nan cnan = true.
+Proof. vm_compute. reflexivity. Qed.
+Lemma sign_cnan : f_sign cnan = false.
+Proof. vm_compute. reflexivity. Qed.
+Lemma tc_cnan : tc_key cnan = cnan.
+Proof. vm_compute. reflexivity. Qed.
+
+Lemma tc_nonnan y : f_is_nan y = false -> tc_key y <= inf_bits.
+Proof.
+  float_unfold. unfold two63, two64, inf_bits.
+  pose proof (Z.mod_pos_bound y 18446744073709551616 eq_refl).
+  set (ry := y mod 18446744073709551616) in *.
+  zb_cases; intros; try discriminate; lia.
+Qed.
+
+Lemma cy_pull x y :
+  bucket x = bucket y -> bucket x <> 4 -> cy_order x y = pv_cmp (cn x) (cn y).
+Proof.
+  intros Hb Hx. destruct x, y; cbn in Hb, Hx; try discriminate Hb; try reflexivity;
+    try (exfalso; apply Hx; reflexivity).
+  - (* Int, Float *)
+    change (cy_order (PInt z) (PFloat bits))
+      with (if f_is_nan bits then Lt else pv_cmp (PInt z) (PFloat bits)).
+    unfold cn. destruct (f_is_nan bits); [|reflexivity].
+    cbn [pv_cmp]. unfold cmp_int_float. rewrite nan_cnan, sign_cnan. reflexivity.
+  - (* Float, Int *)
+    change (cy_order (PFloat bits) (PInt z))
+      with (if f_is_nan bits then Gt else pv_cmp (PFloat bits) (PInt z)).
+    unfold cn. destruct (f_is_nan bits); [|reflexivity].
+    cbn [pv_cmp]. unfold cmp_float_int. rewrite nan_cnan, sign_cnan. reflexivity.
+  - (* Float, Float *)
+    change (cy_order (PFloat bits) (PFloat bits0))
+      with (match f_is_nan bits, f_is_nan bits0 with
+            | true, true => Eq | true, false => Gt | false, true => Lt
+            | false, false => pv_cmp (PFloat bits) (PFloat bits0) end).
+    unfold cn.
+    destruct (f_is_nan bits) eqn:E1; destruct (f_is_nan bits0) eqn:E2; cbn [pv_cmp];
+      unfold f_total_cmp; try reflexivity.
+    + symmetry. apply Z.compare_gt_iff. rewrite tc_cnan.
+      pose proof (tc_nonnan _ E2). unfold cnan, inf_bits in *. lia.
+    + symmetry. apply Z.compare_lt_iff. rewrite tc_cnan.
+      pose proof (tc_nonnan _ E1). unfold cnan, inf_bits in *. lia.
+Qed.
+
+Lemma cy_nonarr x : bucket x <> 4 -> lawful_at cy_order x.
+Proof.
+  intros Hx. destruct (pv_cmp_lawful (cn x)) as (S & L & T & R).
+  apply (lex2_cond rb_cmp cy_order cy_order x cy_rb (rb_cmp_lawful x)).
+  - intros u E. apply rb_cmp_eq in E.
+    rewrite !cy_pull by congruence. apply S.
+  - intros u w E1 E2. apply rb_cmp_eq in E1, E2.
+    rewrite !cy_pull by congruence. apply L.
+  - intros u w E1 E2. apply rb_cmp_eq in E1, E2.
+    rewrite !cy_pull by congruence. apply T.
+  - intros u w E1 E2. apply rb_cmp_eq in E1, E2.
+    rewrite !cy_pull by congruence. apply R.
+Qed.
+
+Theorem cy_order_lawful : forall a, lawful_at cy_order a.
+Proof.
+  induction a as [s|i|b|b|d|l H|m H|v|mo da se na|] using pv_nested_ind;
+    try (apply cy_nonarr; cbn; discriminate).
+  pose proof (lex_lawful cy_order l H) as (S & L & T & R).
+  apply (lex2_cond rb_cmp cy_order cy_order _ cy_rb (rb_cmp_lawful _)).
+  - intros u E. apply rb_cmp_eq in E. same_bucket u E. exact (S _).
+  - intros u w E1 E2. apply rb_cmp_eq in E1, E2.
+    same_bucket u E1. same_bucket w E2. exact (L _ _).
+  - intros u w E1 E2. apply rb_cmp_eq in E1, E2.
+    same_bucket u E1. same_bucket w E2. exact (T _ _).
+  - intros u w E1 E2. apply rb_cmp_eq in E1, E2.
+    same_bucket u E1. same_bucket w E2. exact (R _ _).
+Qed.
+
+Theorem cy_order_preorder :
+  (forall a, cy_order a a = Eq) /\
+  (forall a b, cy_order a b = CompOpp (cy_order b a)) /\
+  (forall a b, cy_order a b <> Gt \/ cy_order b a <> Gt) /\
+  (forall a b c, cy_order a b <> Gt -> cy_order b c <> Gt -> cy_order a c <> Gt) /\
+  (forall a b c, cy_order a b = Lt -> cy_order b c = Lt -> cy_order a c = Lt) /\
+  (forall a b c, cy_order a b = Eq -> cy_order b c = Eq -> cy_order a c = Eq) /\
+  (forall a b c, cy_order a b = Eq -> cy_order a c = cy_order b c).
+Proof.
+  repeat split.
+  - intros a. apply lawful_refl, cy_order_lawful.
+  - intros a b. apply (cy_order_lawful a).
+  - intros a b. destruct (cy_order_lawful a) as (S & _). rewrite (S b).
+    destruct (cy_order b a); cbn; [left|right|left]; discriminate.
+  - apply lawful_le_trans, cy_order_lawful.
+  - intros a b c. apply (cy_order_lawful a).
+  - intros a b c E1 E2. destruct (cy_order_lawful a) as (_ & L & _). rewrite (L b c E1). exact E2.
+  - intros a b c. apply (cy_order_lawful a).
+Qed.
+
+(* ------------------------------------------------------------------ *)
+(* consequence: a sorted arrangement of a collection of values is unique, so the result of
+   sorting (by any correct algorithm) cannot depend on the order the values arrived in *)
+From Coq Require Import Sorted.
+
+Definition pv_le (a b : pv) : Prop := pv_cmp a b <> Gt.
+
+Lemma pv_le_antisym a b : wf a = true -> wf b = true -> pv_le a b -> pv_le b a -> a = b.
+Proof.
+  unfold pv_le. intros Wa Wb H1 H2. apply pv_cmp_eq_leibniz; auto.
+  rewrite (pv_cmp_antisym b a) in H2. destruct (pv_cmp a b); cbn in *; congruence.
+Qed.
+
+Theorem sorted_perm_unique : forall l1 l2,
+  Forall (fun x => wf x = true) l1 -> Permutation l1 l2 ->
+  StronglySorted pv_le l1 -> StronglySorted pv_le l2 -> l1 = l2.
+Proof.
+  induction l1 as [|a l1 IH]; intros l2 W HP S1 S2.
+  - apply Permutation_nil in HP. congruence.
+  - destruct l2 as [|b l2]; [apply Permutation_sym, Permutation_nil in HP; discriminate|].
+    inversion S1 as [|? ? S1' F1]; subst. inversion S2 as [|? ? S2' F2]; subst.
+    inversion W as [|? ? Wa W']; subst.
+    assert (Wb : wf b = true).
+    { assert (In b (a :: l1)) by (eapply Permutation_in; [apply Permutation_sym; exact HP|left; reflexivity]).
+      rewrite Forall_forall in W. apply W; auto. }
+    assert (a = b).
+    { assert (Ha : In a (b :: l2)) by (eapply Permutation_in; [exact HP|left; reflexivity]).
+      assert (Hb : In b (a :: l1)) by (eapply Permutation_in; [apply Permutation_sym; exact HP|left; reflexivity]).
+      destruct Ha as [Ha|Ha]; [congruence|]. destruct Hb as [Hb|Hb]; [congruence|].
+      rewrite Forall_forall in F1, F2. apply pv_le_antisym; auto. }
+    subst b. f_equal. apply IH; auto. eapply Permutation_cons_inv; exact HP.
+Qed.
+
+(* insertion sort by pv_cmp, as one concrete instance *)
+Fixpoint pv_insert (x : pv) (l : list pv) : list pv :=
+  match l with
+  | [] => [x]
+  | y :: r => match pv_cmp x y with Gt => y :: pv_insert x r | _ => x :: y :: r end
+  end.
+
+Definition pv_sort (l : list pv) : list pv := fold_right pv_insert [] l.
+
+Lemma pv_insert_perm x l : Permutation (x :: l) (pv_insert x l).
+Proof.
+  induction l as [|y r IH]; cbn; auto.
+  destruct (pv_cmp x y); auto.
+  eapply perm_trans; [apply perm_swap|]. apply perm_skip. exact IH.
+Qed.
+
+Lemma pv_sort_perm l : Permutation l (pv_sort l).
+Proof.
+  induction l as [|x l IH]; cbn; auto.
+  eapply perm_trans; [apply perm_skip; exact IH|]. apply pv_insert_perm.
+Qed.
+
+Lemma pv_insert_sorted x l : StronglySorted pv_le l -> StronglySorted pv_le (pv_insert x l).
+Proof.
+  induction 1 as [|y r S IH F]; cbn.
+  - constructor; constructor.
+  - destruct (pv_cmp x y) eqn:E.
+    + constructor; [constructor; auto|]. constructor; [unfold pv_le; congruence|].
+      eapply Forall_impl; [|exact F]. intros z Hz. unfold pv_le in *.
+      apply (pv_cmp_trans_le x y z); congruence.
+    + constructor; [constructor; auto|]. constructor; [unfold pv_le; congruence|].
+      eapply Forall_impl; [|exact F]. intros z Hz. unfold pv_le in *.
+      apply (pv_cmp_trans_le x y z); congruence.
+    + constructor; auto.
+      assert (Hyx : pv_le y x).
+      { unfold pv_le. rewrite (pv_cmp_antisym y x), E. discriminate. }
+      assert (HF : Forall (pv_le y) (x :: r)) by (constructor; auto).
+      eapply Permutation_Forall; [apply pv_insert_perm|exact HF].
+Qed.
+
+Lemma pv_sort_sorted l : StronglySorted pv_le (pv_sort l).
+Proof. induction l; cbn; [constructor|apply pv_insert_sorted; auto]. Qed.
+
+Theorem sort_perm_invariant l1 l2 :
+  Forall (fun x => wf x = true) l1 -> Permutation l1 l2 -> pv_sort l1 = pv_sort l2.
+Proof.
+  intros W HP. apply sorted_perm_unique; auto using pv_sort_sorted.
+  - eapply Permutation_Forall; [apply pv_sort_perm|exact W].
+  - eapply perm_trans; [apply Permutation_sym, pv_sort_perm|].
+    eapply perm_trans; [exact HP|apply pv_sort_perm].
+Qed.
+
+(* ------------------------------------------------------------------ *)
+(* consequence: lookups in an ordered index do not depend on insertion order.
+   PropertyIndex is a BTreeMap<PropertyValue, HashSet<NodeId>>; std's B-tree is represented
+   here by what it maintains, a key-sorted association list searched with pv_cmp (the search
+   stops as soon as the probe is smaller than the entry, as a tree search does). *)
+Definition index := list (pv * list N).
+
+Fixpoint idx_insert (k : pv) (id : N) (m : index) : index :=
+  match m with
+  | [] => [(k, [id])]
+  | (k', ids) :: r =>
+      match pv_cmp k k' with
+      | Lt => (k, [id]) :: m
+      | Eq => (k', id :: ids) :: r
+      | Gt => (k', ids) :: idx_insert k id r
+      end
+  end.
+
+Fixpoint idx_get (k : pv) (m : index) : list N :=
+  match m with
+  | [] => []
+  | (k', ids) :: r =>
+      match pv_cmp k k' with
+      | Lt => []
+      | Eq => ids
+      | Gt => idx_get k r
+      end
+  end.
+
+Definition idx_build (ops : list (pv * N)) : index :=
+  fold_left (fun m p => idx_insert (fst p) (snd p) m) ops [].
+
+Definition pv_lt (a b : pv) : Prop := pv_cmp a b = Lt.
+Definition idx_sorted (m : index) : Prop := StronglySorted pv_lt (map fst m).
+
+Lemma pv_cmp_eq_congr_r a b c : pv_cmp b c = Eq -> pv_cmp a b = pv_cmp a c.
+Proof. apply (pv_cmp_lawful a). Qed.
+
+Lemma pv_cmp_gt_lt a b : pv_cmp a b = Gt -> pv_cmp b a = Lt.
+Proof. intros H. rewrite (pv_cmp_antisym b a), H. reflexivity. Qed.
+
+Lemma pv_cmp_eq_sym a b : pv_cmp a b = Eq -> pv_cmp b a = Eq.
+Proof. intros H. rewrite (pv_cmp_antisym b a), H. reflexivity. Qed.
+
+Lemma idx_insert_keys k id m x :
+  In x (map fst (idx_insert k id m)) -> x = k \/ In x (map fst m).
+Proof.
+  induction m as [|[k' ids] r IH]; cbn.
+  - intros [H|[]]; auto.
+  - destruct (pv_cmp k k'); cbn; intros [H|H]; auto.
+    destruct (IH H); auto.
+Qed.
+
+Lemma idx_insert_sorted k id m : idx_sorted m -> idx_sorted (idx_insert k id m).
+Proof.
+  unfold idx_sorted. induction m as [|[k' ids] r IH]; cbn; intros S.
+  - constructor; constructor.
+  - inversion S as [|? ? S' F]; subst.
+    destruct (pv_cmp k k') eqn:E; cbn.
+    + constructor; auto.
+    + constructor; [constructor; auto|]. constructor; [exact E|].
+      eapply Forall_impl; [|exact F]. intros z Hz. exact (pv_cmp_trans_lt k k' z E Hz).
+    + constructor; auto.
+      apply Forall_forall. intros x Hx. apply idx_insert_keys in Hx. destruct Hx as [->|Hx].
+      * apply pv_cmp_gt_lt; exact E.
+      * rewrite Forall_forall in F. apply F; exact Hx.
+Qed.
+
+Lemma idx_get_insert k id m : idx_sorted m ->
+  forall q i, In i (idx_get q (idx_insert k id m)) <->
+              (pv_cmp q k = Eq /\ i = id) \/ In i (idx_get q m).
+Proof.
+  unfold idx_sorted. induction m as [|[k' ids] r IH]; cbn; intros S q i.
+  - destruct (pv_cmp q k); cbn; intuition congruence.
+  - inversion S as [|? ? S' F]; subst.
+    destruct (pv_cmp k k') eqn:E; cbn.
+    + (* same key: the id joins the entry *)
+      rewrite (pv_cmp_eq_congr_r q k k' E).
+      destruct (pv_cmp q k'); cbn; intuition congruence.
+    + (* new smallest key *)
+      destruct (pv_cmp q k) eqn:E2; cbn.
+      * rewrite (pv_cmp_eq_congr q k k' E2), E. cbn. intuition congruence.
+      * rewrite (pv_cmp_trans_lt q k k' E2 E). cbn. intuition congruence.
+      * intuition congruence.
+    + (* goes further right *)
+      destruct (pv_cmp q k') eqn:E2; cbn.
+      * assert (pv_cmp q k = Lt).
+        { rewrite (pv_cmp_eq_congr q k' k E2). apply pv_cmp_gt_lt; exact E. }
+        intuition congruence.
+      * assert (pv_cmp q k = Lt).
+        { apply (pv_cmp_trans_lt q k' k E2). apply pv_cmp_gt_lt; exact E. }
+        intuition congruence.
+      * apply IH; exact S'.
+Qed.
+
+Lemma idx_build_inv ops : forall m0, idx_sorted m0 ->
+  idx_sorted (fold_left (fun m p => idx_insert (fst p) (snd p) m) ops m0) /\
+  forall q i, In i (idx_get q (fold_left (fun m p => idx_insert (fst p) (snd p) m) ops m0)) <->
+              (exists k, In (k, i) ops /\ pv_cmp q k = Eq) \/ In i (idx_get q m0).
+Proof.
+  induction ops as [|[k id] ops IH]; cbn; intros m0 S.
+  - split; auto. intros q i. split; auto. intros [(k & [] & _)|H]; auto.
+  - destruct (IH (idx_insert k id m0) (idx_insert_sorted k id m0 S)) as [S' G]. split; auto.
+    intros q i. rewrite G, (idx_get_insert k id m0 S). split.
+    + intros [(k0 & Hin & E)|[[E ->]|H]]; eauto.
+    + intros [(k0 & [Hin|Hin] & E)|H]; eauto. injection Hin as -> ->. auto.
+Qed.
+
+(* a lookup returns exactly the ids inserted under a key that compares Eq to the probe *)
+Theorem idx_get_build ops q i :
+  In i (idx_get q (idx_build ops)) <-> exists k, In (k, i) ops /\ pv_cmp q k = Eq.
+Proof.
+  destruct (idx_build_inv ops [] (SSorted_nil _)) as [_ G]. unfold idx_build. rewrite G. cbn.
+  intuition.
+Qed.
+
+(* ... which for well-formed values is the probe itself, and does not depend on the order
+   of insertion *)
+Theorem idx_lookup_order_free ops ops' q i :
+  Permutation ops ops' ->
+  (In i (idx_get q (idx_build ops)) <-> In i (idx_get q (idx_build ops'))).
+Proof.
+  intros HP. rewrite !idx_get_build. split; intros (k & Hin & E); exists k; split; auto.
+  - eapply Permutation_in; eauto.
+  - eapply Permutation_in; [apply Permutation_sym|]; eauto.
+Qed.
+
+Theorem idx_lookup_exact ops q i :
+  wf q = true -> Forall (fun p => wf (fst p) = true) ops ->
+  (In i (idx_get q (idx_build ops)) <-> In (q, i) ops).
+Proof.
+  intros Wq W. rewrite idx_get_build. split.
+  - intros (k & Hin & E). rewrite Forall_forall in W.
+    apply pv_cmp_eq_leibniz in E; auto; [congruence|]. apply (W (k, i) Hin).
+  - intros Hin. exists q. split; auto. apply pv_cmp_refl.
 Qed.
